@@ -80,7 +80,7 @@ def main():
         ],
         'checks': checks,
         'not_applicable': na,
-        'notes': 'fix: commits in /repo and known findings are listed in /verif/known_findings.json; DESIGN.md section 6',
+        'notes': 'fix: commits in /repo and known findings are listed in /verif/known_findings.json; DESIGN.md sections 6 and 10.2 / 10.3 (one open finding: C02-rebump-older-runid)',
     }
     with open(os.path.join(ROOT, 'MANIFEST.json'), 'wt') as f:
         json.dump(man, f, indent=1)
